@@ -574,7 +574,10 @@ def run(rep):
     tier, rng = rep.tier, Rng(rep.seed)
     cov = rep.cov
     broken = []
-    po = common.proof_obligations(PROP_FILES)
+    # translator: the three send_if_modified closures of gossip/fetch.rs are regenerated from the source; Properties/C19Gen.v proves them equal to the steps RIns / RWakeCancel / ATake of Model/Fetch.v
+    import rust2coq
+    translator, gen_files = rust2coq.step(["fetch"], ["theories/Properties/C19Gen.v"], broken)
+    po = common.proof_obligations(PROP_FILES + gen_files)
     if not po["ok"]:
         broken.append("Coq obligations of Properties/C19.v: " + (po["log_tail"] or str(po["hygiene_problems"] or po["bad_axioms"])))
     ok, out = common.cargo_build([BIN], "dev")
@@ -650,7 +653,7 @@ def run(rep):
             "H-ATOM: tokio watch send_if_modified / borrow_and_update / changed, oneshot and BTreeMap behave as documented; the closure of send_if_modified is atomic; a task is not interrupted between awaits (this fixes the grain of the actions of Model.Fetch.step)",
             "vh fetch reproduces the glue of gossip/mod.rs (request inside a scope ended by a signal) and gossip/runner.rs (reserve, accept_block, keep handle) around the real Queue; vh fetcher runs the real Network::run_block_fetcher (hook Glue::gossip_run_block_fetcher) over the real EngineManager with a scripted persistence layer and pre-genesis blocks; run_stream itself is not executed",
         ]),
-        "theorems": po["theorems"], "axioms": po["axioms"],
+        "theorems": po["theorems"], "axioms": po["axioms"], "translator": translator,
         "evaluations": evals + ft["evals"],
         "distinct_nontrivial": len(dist) + ft["distinct"],
         "rule": "one evaluation = one script step (batch of environment actions applied back to back, runtime drained to quiescence, state observed) on the real Queue with 1-5 peers and up to 10 requesters; scripts of 2-36 steps in four styles (mixed, race = many peers announcing the same low numbers, churn = failure/disconnect heavy, tiny) + 5 corpus scenarios; the model must reproduce the observed event order by an execution of Model.Fetch.step and reach the same quiescent state (queued numbers, per-connection accept status/permits/held calls, per-request status) with no visible action left enabled; non-trivial = distinct (script, event log) with at least one hand-over and at least one re-queue, completion or cancellation",
